@@ -217,4 +217,24 @@ PROPS = {
                 "signing, also directly after a successful unlock, must be refused with an error, return no data and "
                 "write nothing. Non-trivial = at least one disk scan ran.",
     },
+    "C18": {
+        "level": "fault_enumeration",
+        "quick_runs": 48, "thorough_runs": 1500, "chunk": 1,
+        "enum": "failj:calls:250,failj:calls:250:sticky=1",
+        "thorough_params": {"pre": 25},
+        "nontrivial_stat": "probe.fault_fired",
+        "rule": "one sampled history = 2-3 wallets, a short generated chain history, then ONE focus operation (block "
+                "connect, reorganisation, new address, create wallet, remove wallet incl. its rounds, import mnemonic / "
+                "import keystore incl. the rescan) executed at a quiescent point. The fault-free twin counts the wallet-db "
+                "calls (begin, get/prefix-get, put, delete, iterator step, commit) made while the operation and the "
+                "background work it triggers run; then for EVERY call index j the same tapes are re-run with call j "
+                "returning an error, once as a single fault and once sticky (every later call fails too until the "
+                "operation is over). Oracle: no panic; a deliberate process end (logging FATAL) while the injected fault fires "
+                "counts as fail-stop: the process is restarted on what was committed and the same end check applies. "
+                "After storage works again an operation that "
+                "reported failure is repeated and must succeed; the chain moves on and at quiescence the wallet set, "
+                "task states and every wallet's ledger equal the fault-free behaviour (reference model), and the next "
+                "address request continues the index sequence without a skipped or duplicated index. Non-trivial = the "
+                "injected fault actually fired.",
+    },
 }
